@@ -121,6 +121,9 @@ require('./__samlang_loader__.js')(binary).{}();
 #[cfg(samlang_verif)]
 pub mod verif {
   pub use crate::hir_lowering::verif_compile_sources_to_hir as compile_sources_to_hir;
+  pub use crate::hir_lowering::verif_compile_sources_to_mir_before_rewrites as compile_sources_to_mir_before_rewrites;
+  pub use crate::hir_lowering::verif_constant_param_elimination as constant_param_elimination;
+  pub use crate::hir_lowering::verif_tail_rec_rewrite as tail_rec_rewrite;
 }
 
 #[cfg(test)]
